@@ -35,6 +35,24 @@ def run(seed=0, rounds=40):
         ok("slice[:k]", np.array_equal(A[:k, :], A[list(range(0, lo))]) and np.array_equal(A[k:, :], A[list(range(lo, n))]))
         ok("newaxis", v[:, np.newaxis].shape == (n, 1) and np.array_equal(v[:, np.newaxis][:, 0], v))
         ok("column", np.array_equal(A[:, m - 1], [A[i][m - 1] for i in range(n)]) and np.array_equal(A[:, -1], A[:, m - 1]))
+        # models used by BSpline._initialize
+        w = rng.normal(size=rnd.randint(1, 7)) * rnd.choice([1, 100]) + rnd.choice([0, 1e3])
+        nk = rnd.randint(0, 5)
+        lin = np.linspace(0, 1, nk + 2)
+        ok("linspace", len(lin) == nk + 2 and lin[0] == 0 and np.all((0 <= lin) & (lin <= 1)) and len(lin[1:-1]) == nk
+           and np.allclose(lin, [i / (nk + 1) for i in range(nk + 2)]))
+        pc = np.percentile(w, 100 * np.asarray(lin[1:-1]))
+        ok("percentile", pc.shape == (nk,) and np.all(pc >= np.min(w)) and np.all(pc <= np.max(w)) and
+           np.array_equal(pc, np.percentile(np.array(w), 100 * np.asarray(lin[1:-1]))))
+        o = rnd.randint(1, 4)
+        cat = np.concatenate(([w[0], 7.5] * o, pc))
+        ok("concatenate/list*int", cat.shape == (2 * o + nk,) and all(cat[2 * i] == w[0] and cat[2 * i + 1] == 7.5 for i in range(o))
+           and np.array_equal(cat[2 * o:], pc) and [1.5, 2.5] * 0 == [] and [1.5] * -1 == [])
+        srt = cat.copy()
+        r_ = srt.sort()
+        ok("ndarray.sort", r_ is None and srt.shape == cat.shape and np.all(srt[:-1] <= srt[1:]) and sorted(cat.tolist()) == srt.tolist())
+        msk = w > np.median(w)
+        ok("mask read", w[msk].ndim == 1 and 0 <= len(w[msk]) <= len(w) and np.any(msk) == bool(len(w[msk])))
         # stacking
         V = np.vstack((A[:lo, :], np.zeros((1, m)), A[lo:, :]))
         ok("vstack", V.shape == (n + 1, m) and np.array_equal(V[:lo], A[:lo]) and not V[lo].any() and np.array_equal(V[lo + 1:], A[lo:]))
